@@ -3,6 +3,8 @@ import MosnVerif.Lemmas.FrameRefine
 import MosnVerif.Model.FrameSpec
 import MosnVerif.Lemmas.FrameH2
 import MosnVerif.Lemmas.FrameHpack
+import MosnVerif.Lemmas.HpackAt
+import MosnVerif.Lemmas.H2Lock
 /-!
 # C08 — malformed input is contained (property theorems only)
 
@@ -80,6 +82,17 @@ theorem http2_no_overread_partial (maxRead : Nat) (parseOk groupOk : Bytes → B
     (h : MosnVerif.Model.FrameH2.h2Step maxRead parseOk groupOk st b = .frame f n) : 0 < n ∧ n ≤ b.length :=
   (MosnVerif.Model.FrameH2.h2Step_stable maxRead parseOk groupOk).pos st b f n h
 
+/-- **http2_stream_error_consumes_frame**: what a failing `ReadFrame` consumes — nothing, or, for a StreamError (which
+does not end the connection), exactly the complete frame resp. the complete HEADERS+CONTINUATION group that answered it
+(the stream-error `Drain` calls regenerated from ReadFrame) — is never more than was received, on every byte string. -/
+theorem http2_stream_error_consumes_frame (maxRead : Nat) (parseOk : Bytes → Bool) (b : Bytes) (n : Nat)
+    (h : n ∈ MosnVerif.Model.FrameH2.errDrains maxRead parseOk b) : n ≤ b.length :=
+  MosnVerif.Model.FrameH2.errDrains_le maxRead parseOk b n h
+
+-- a WINDOW_UPDATE of 13 bytes whose parser answers a stream error (increment 0) is consumed whole
+example : MosnVerif.Model.FrameH2.errDrains 16384 (fun _ => true) [0,0,4, 8, 0, 0,0,0,1, 0,0,0,0, 7] = [0, 13, 13] := by
+  decide +kernel
+
 /-- **hpack_varint_no_overread**: an HPACK integer (`readVarInt`, every prefix size) that decodes consumed at least
 one byte and only bytes of the input (what remains is a proper suffix); otherwise the decoder asks for more or reports
 an overflow — on every byte string (the loop stops after at most 10 bytes). -/
@@ -93,6 +106,111 @@ theorem hpack_string_bounded (maxStrLen : Nat) (p s r : Bytes)
     (h : MosnVerif.Model.FrameHpack.readString maxStrLen p = .ok s r) :
     s.length + r.length < p.length ∧ (maxStrLen ≠ 0 → s.length ≤ maxStrLen) :=
   MosnVerif.Model.FrameHpack.readString_bounded maxStrLen p s r h
+
+/-- **hpack_at_no_oob**: `hpack.Decoder.at` — its comparisons, the integer type each is made in (uint64 vs int), its
+conversions and its two index expressions regenerated from hpack.go (Gen/HpackAt) and evaluated with checked access —
+never indexes outside the static or the dynamic table, for EVERY value of its uint64 argument (every index `readVarInt`
+can deliver, 2^63 and above included) and every dynamic table: it returns an entry, or no entry (`InvalidIndexError`)
+exactly for 0 and for indices beyond the last entry; and the entry is the one of `Model/HpackTable.Dec.at` (the lookup
+the table-synchronisation theorems of C18 are about).  (`length + 61 < 2^63`: Go slice lengths are ints.) -/
+theorem hpack_at_no_oob (d : MosnVerif.Model.HpackTable.Dec) (i : Nat) (hi : i < 2 ^ 64)
+    (hlen : d.tab.ents.length + MosnVerif.Model.HpackTable.staticLen < 2 ^ 63) :
+    MosnVerif.Model.HpackAt.lookup d i ≠ .oob ∧
+    (MosnVerif.Model.HpackAt.lookup d i = .none ↔ (i = 0 ∨ d.tab.ents.length + MosnVerif.Model.HpackTable.staticLen < i)) ∧
+    MosnVerif.Model.HpackAt.lookup d i = MosnVerif.Model.HpackAt.Look.ofOption (d.at i) :=
+  ⟨MosnVerif.Lemmas.HpackAt.lookup_no_oob d i hi hlen, MosnVerif.Lemmas.HpackAt.lookup_none_iff d i hi hlen,
+   MosnVerif.Lemmas.HpackAt.lookup_eq d i hi hlen⟩
+
+/-- the same at the level of the regenerated function: every uint64 against table lengths `sl`, `dl` -/
+theorem hpack_at_spec (sl dl i : Int) (hs : 0 ≤ sl) (hd : 0 ≤ dl) (hsum : sl + dl < 2 ^ 63) (hi0 : 0 ≤ i) (hi : i < 2 ^ 64) :
+    MosnVerif.Gen.HpackAt.tableAt sl dl i =
+      if i = 0 ∨ sl + dl < i then .none
+      else if i ≤ sl then .entry .static (i - 1).toNat else .entry .dyn (dl - (i - sl)).toNat :=
+  MosnVerif.Lemmas.HpackAt.tableAt_spec sl dl i hs hd hsum hi0 hi
+
+-- the maximal 10-byte varint `ff ff ff ff ff ff ff ff ff 7f` (2^63 + 126) and 2^64 - 1 are refused, 61 / 62 are the last
+-- static and the newest dynamic entry
+example : MosnVerif.Gen.HpackAt.tableAt 61 3 9223372036854775934 = .none := by decide
+example : MosnVerif.Gen.HpackAt.tableAt 61 3 18446744073709551615 = .none := by decide
+example : MosnVerif.Gen.HpackAt.tableAt 61 3 61 = .entry .static 60 := by decide
+example : MosnVerif.Gen.HpackAt.tableAt 61 3 62 = .entry .dyn 2 := by decide
+example : MosnVerif.Gen.HpackAt.tableAt 61 3 64 = .entry .dyn 0 := by decide
+example : MosnVerif.Gen.HpackAt.tableAt 61 3 65 = .none := by decide
+-- the class the theorem excludes: the static-table test made on `int(i)` sends every index ≥ 2^63 into
+-- `staticTable.ents[i-1]` — out of range
+example : MosnVerif.Gen.HpackAt.chkIdx .static 61 (MosnVerif.Gen.HpackAt.wrapU64 (9223372036854775934 - 1)) = .oob ∧
+    decide (MosnVerif.Gen.HpackAt.wrapS64 9223372036854775934 ≤ 61) = true := by decide
+
+/-! ## "never wedge the proxy": the connection mutex of the HTTP/2 stream connections (Model/H2Lock.lean) -/
+section h2lock
+open MosnVerif.Gen.H2Lock MosnVerif.Model.H2Lock MosnVerif.Lemmas.H2Lock
+
+/-- **no_self_deadlock**: on EVERY control-flow path of EVERY method of clientStreamConnection / clientStream (and of
+serverStreamConnection.handleError) — the paths, their Lock / Unlock / `defer Unlock` positions, the calls made in between
+and the set of methods that take `conn.mutex` (`ResetStream` unless `connReset`, `handleError`, `endStream`, …,
+`conn.conn.Close` through the synchronous close event) all regenerated from stream.go — no call that acquires
+`conn.mutex` is made while the goroutine holds it, nothing is unlocked that is not held in that mode, and the mutex is
+free again when the method returns. -/
+theorem no_self_deadlock :
+    (∀ p ∈ clientPaths, checkOps none (flatten clientAcquires p.acts) = none) ∧
+    (∀ p ∈ serverPaths, checkOps none (flatten serverAcquires p.acts) = none) := by
+  have h : (clientPaths.all (disciplined clientAcquires) && serverPaths.all (disciplined serverAcquires)) = true := by
+    decide +kernel
+  simp only [Bool.and_eq_true, List.all_eq_true, disciplined, beq_iff_eq] at h
+  exact h
+
+/-- **no_wedge**: any number of goroutines, each running any method of the client family along any of its paths, under
+ANY schedule: no reachable state is stuck (somebody can always move while somebody is unfinished), and from every
+reachable state all of them finish after exactly the remaining number of mutex operations — the connection's read
+goroutine always gets back to reading and a later request always gets through `endStream`. -/
+theorem no_wedge (ps : List Path) (hp : ∀ p ∈ ps, p ∈ clientPaths) (sched : List Nat) :
+    let s := (Sys.start (ps.map (fun p => flatten clientAcquires p.acts))).run sched
+    s.stuck = false ∧ ∃ rest, rest.length = s.remaining ∧ (s.run rest).allDone = true := by
+  intro s
+  have hg : Good s := by
+    apply run_good
+    apply good_start
+    intro o ho
+    obtain ⟨p, hpm, rfl⟩ := List.mem_map.1 ho
+    exact no_self_deadlock.1 p (hp p hpm)
+  exact ⟨not_stuck s hg, completes s.remaining s hg rfl⟩
+
+/-- the same for ANY set of disciplined paths (not only the regenerated ones): discipline is what excludes the wedge -/
+theorem disciplined_never_stuck (acq : List (String × Bool)) (ps : List Path) (hp : ∀ p ∈ ps, disciplined acq p = true)
+    (sched : List Nat) : ((Sys.start (ps.map (fun p => flatten acq p.acts))).run sched).stuck = false := by
+  apply not_stuck
+  apply run_good
+  apply good_start
+  intro o ho
+  obtain ⟨p, hpm, rfl⟩ := List.mem_map.1 ho
+  have := hp p hpm
+  simpa [disciplined] using this
+
+-- non-vacuity: the StreamError branch of handleError exists, locks, unlocks and THEN calls ResetStream, which locks
+example : (findPath clientPaths "handleError" ["case http2.StreamError", "s != nil"]).map (·.acts) =
+    some [.lock, .unlock, .call "ResetStream" false, .ret] := by decide +kernel
+example : acquiresNow clientAcquires "ResetStream" false = true ∧ acquiresNow clientAcquires "ResetStream" true = false ∧
+    acquiresNow clientAcquires "connClose" false = true := by decide +kernel
+-- Reset holds the mutex while it resets every stream: accepted only because it sets connReset first
+example : (clientPaths.filter (fun p => p.fn == "Reset")).map (·.acts) =
+    [[.lock, .deferUnlock, .ret], [.lock, .deferUnlock, .call "ResetStream" true, .ret],
+     [.lock, .deferUnlock, .call "ResetStream" true, .call "ResetStream" true, .ret]] := by decide +kernel
+
+/-- the `defer` shape of the StreamError branch -/
+def deferShape : Path :=
+  { fn := "handleError", conds := ["case http2.StreamError", "s != nil"],
+    acts := [.lock, .deferUnlock, .call "ResetStream" false, .ret] }
+
+/-- **defer_unlock_self_deadlocks** (machine-checked witness): with `conn.mutex.Lock(); defer conn.mutex.Unlock()` around
+the lookup, `s.ResetStream` is called with the mutex held: the path is not disciplined (self-deadlock); the read
+goroutine stops in front of its second Lock, a later request's `endStream` stops in front of its first, and the system
+of the two is stuck under every continuation — the stream is never reset, the connection never read again. -/
+theorem defer_unlock_self_deadlocks :
+    checkOps none (flatten clientAcquires deferShape.acts) = some .selfDeadlock ∧
+    (let s := (Sys.start [flatten clientAcquires deferShape.acts, [.acq true, .rel true]]).run [0, 1, 0, 1, 1, 0];
+     s.stuck = true ∧ s.remaining = 5) := by decide +kernel
+
+end h2lock
 
 def toOutcome : Out → Outcome
   | .needMore => .needMore 0
